@@ -38,7 +38,7 @@ def cases(tier, seed):
         mode = "fract" if (j // 3) % 3 else "cart"
         if mode == "cart" and cell == "rotated":
             mode = "fract"
-        out.append({"s": int(rng.integers(1 << 30)), "cell": cell, "mode": mode, "where": ["inside", "outside", "boundary"][(j // 9) % 3]})
+        out.append({"s": int(rng.integers(1 << 30)), "cell": cell, "mode": mode, "where": ["inside", "outside", "boundary", "upper_face"][(j // 9) % 4]})
     # more than 9999 atoms of one element: atom labels get a fifth digit
     for j in range(1 if tier == "quick" else 6):
         out.append({"s": int(rng.integers(1 << 30)), "cell": "ortho", "mode": ["fract", "cart"][j % 2], "where": "inside", "many_atoms": 10060 + 40 * j})
@@ -78,6 +78,11 @@ def build(rng, case):
         f = rng.uniform(0.01, 0.99, (n, 3))
     elif case["where"] == "outside":
         f = rng.uniform(-1.6, 2.6, (n, 3))
+    elif case["where"] == "upper_face":
+        # nothing outside the cell, but some atoms exactly on its upper faces (fractional 1, or so close that 1.0000 is printed)
+        f = rng.uniform(0.01, 0.99, (n, 3))
+        for i in range(0, n, 2):
+            f[i, int(rng.integers(3))] = float(rng.choice([1.0, 0.99996, 1.0, 0.0]))
     else:
         f = rng.uniform(0.01, 0.99, (n, 3))
         for i in range(n):
@@ -159,8 +164,9 @@ def compare_loaded(b, a, mode, fail):
         if d.max() > HALF4:
             i = int(np.argmax(d.max(axis=1)))
             fail("fractional coordinates of atom %d read back as %s, wrote %s (mod 1)" % (i, fb[i].tolist(), fa[i].tolist()), "fract")
-        if fb.min() < -1e-9 or fb.max() > 1 + 1e-9:
-            fail("reading did not wrap fractional coordinates into the cell: %s" % fb[np.argmax(np.abs(fb - 0.5).max(axis=1))].tolist(), "wrap")
+        # into the cell = into [0, 1): a coordinate of exactly 1 is the periodic image of 0 on the far face, not a position inside
+        if fb.min() < -1e-9 or fb.max() > 1 - 1e-9:
+            fail("reading did not wrap fractional coordinates into the cell [0, 1): %s" % fb[np.argmax(np.abs(fb - 0.5).max(axis=1))].tolist(), "wrap")
     else:
         d = np.abs(np.asarray(b.positions, float) - np.asarray(a.positions, float))
         if d.max() > HALF4:
